@@ -1868,7 +1868,12 @@ class Interp:
                         return x, False, None
             if isinstance(cur, Sym) and cur.label.startswith('method:') and self.model is not None:
                 cls = getattr(self.h, 'cls', None) or getattr(fn, 'cls', None)
+                me_ = s.env.get('self')
+                if isinstance(me_, Obj) and isinstance(me_.cls, M.ClassInfo):
+                    cls = me_.cls                 # the object the code runs on (a helper object of another class than the scenario's)
                 mm = self.model.find_method(cls, cur.label[7:]) if cls is not None else None
+                if mm is None and self.heap:
+                    self.imprecise.append('the method %s held in %s could not be resolved: its effect is lost (line %s)' % (cur.label[7:], f.id, getattr(call, 'lineno', '?')))
                 if mm is not None:
                     return mm.node, not any(d == 'staticmethod' for d in mm.decorators), mm
             if f.id in s.env or self.model is None or fn is None:
@@ -3628,6 +3633,22 @@ class Interp:
         """Next item of a lazy iterator (generator expression, takewhile, filter, map, ... over a stateful source):
         STOP, the item (_NONE_ITEM for None), or None when a condition is not determined."""
         n = gen.node
+        if gen.kind == 'callsentinel':
+            if gen.state:
+                return STOP
+            r = self.apply_value(gen.fn, [], {}, s, getattr(n, 'lineno', 0))       # iter(callable, sentinel): call until the sentinel comes
+            if r is None or r[0] is TOP or (self.precise_exc and '__exc' in s.env):
+                if r is None or r[0] is TOP:
+                    self.unknown_branches.append('iter(callable, sentinel): the value of the call is not determined (line %s)' % getattr(n, 'lineno', '?'))
+                return None if '__exc' not in s.env else STOP
+            eq = self.compare(ast.Eq(), r[0], gen.source)
+            if eq is None:
+                self.unknown_branches.append('iter(callable, sentinel): whether the sentinel was reached is not determined (line %s)' % getattr(n, 'lineno', '?'))
+                return None
+            if eq:
+                gen.state = 1
+                return STOP
+            return _NONE_ITEM if r[0] is None else r[0]
         if gen.kind == 'zip':
             out = []
             for src in gen.source:           # one item from each source, in order; the first that is exhausted ends the zip
@@ -4488,6 +4509,8 @@ class Interp:
                 v = self.ev(k.value, s)
                 if k.arg is not None:
                     kwargs[k.arg] = v
+        if fname == 'iter' and 'iter' not in s.env and len(args) == 2 and not kwargs and self.heap and self.precise_exc:
+            return LazyGen(n, args[1], {}, self.scope, 'callsentinel', fn=args[0])
         if fname == 'zip' and 'zip' not in s.env and not kwargs and args and self.heap:
             scripted = type(self.h).take is not Hooks.take
             stateful = [isinstance(a, Iter) or (scripted and isinstance(a, Sym)) for a in args]
